@@ -1076,9 +1076,12 @@ func (p *Parser[V]) parseUnary(tokenizer *Tokenizer, constants Identifiers[V]) (
 			t = tokenizer.Next()
 			var inner AST
 			var err error
-			if un.opPos >= 0 {
+			if un.opPos >= 0 && un.opPos+1 < len(p.operators) {
 				// the unary is also an operator ("-")
 				inner, err = p.parseOp(tokenizer, un.opPos+1, constants)
+			} else if un.opPos >= 0 {
+				// the unary is also the operator with the highest priority
+				inner, err = p.parseUnary(tokenizer, constants)
 			} else {
 				inner, err = p.parseNonOperator(tokenizer, constants)
 			}
